@@ -3,7 +3,8 @@
 import os, sys
 sys.path.insert(0, os.path.join(os.path.dirname(os.path.abspath(__file__)), "..", "lib"))
 from common import *
-import wireengine as we
+import json
+import wireengine as we, wirelib, drivers
 
 
 def main():
@@ -63,6 +64,95 @@ def main():
                          "leg": legname, "stderr": rr.get("stderr"),
                          "input": open(rr["in"], "rb").read()[-6000:].decode("utf-8", "replace") if "in" in rr else None,
                          "output": (rr.get("outbytes") or b"")[-6000:].decode("utf-8", "replace")})
+    # ---- stream / non-stream patterns (NdjsonReader.tla): NDJSON has no end-of-stream marker, readers look one line ahead.
+    #      Every shape x stream lengths (adjacent and empty streams included) is read and re-written by both languages.
+    pres = tlc("NdjsonReader", cfg="MCNdjsonReader4.cfg" if thorough else "MCNdjsonReader.cfg", timeout=600)
+    if pres.invariant_violated:
+        c.note("TLC: %s violated in NdjsonReader (model-level)" % pres.violated_names())
+    c.add_tlc(pres)
+    pats = tlc_cases(pres.out)
+    shapes = sorted(set(tuple(x["shape"]) for x in pats))
+
+    class PatPkg:
+        def __init__(self, shape, idx):
+            self.shape, self.root, self.ok, self.problem = list(shape), os.path.join(sc, "pat%d" % idx), False, None
+            self.ns = "Np%d" % idx
+
+        def prepare(self):
+            os.makedirs(os.path.join(self.root, "model"), exist_ok=True)
+            seq = "\n".join("    s%d: %s" % (i, "!stream {items: int}" if st else "int") for i, st in enumerate(self.shape))
+            open(os.path.join(self.root, "model", "model.yml"), "w").write("P: !protocol\n  sequence:\n%s\n" % seq)
+            open(os.path.join(self.root, "model", "_package.yml"), "w").write(
+                "namespace: %s\ncpp:\n  sourcesOutputDir: ../cpp\n  generateHDF5: false\n  generateCMakeLists: false\n"
+                "  overrideArrayHeader: yardl_shim_ndarray.h\npython:\n  outputDir: ../py\n" % self.ns)
+            rc, out, err = run([yardl, "generate"], cwd=os.path.join(self.root, "model"), env=yardl_env(home), timeout=120)
+            if rc != 0:
+                self.problem = "yardl generate failed: " + err[-500:]
+                return self
+            self.pymod = [d for d in os.listdir(os.path.join(self.root, "py")) if os.path.isdir(os.path.join(self.root, "py", d))][0]
+            self.schema = wirelib.extract_schema_py(open(os.path.join(self.root, "py", self.pymod, "protocols.py")).read(), "P")
+            m = re.search(r"namespace ([A-Za-z0-9_]+) \{", open(os.path.join(self.root, "cpp", "protocols.h")).read())
+            self.exe = os.path.join(self.root, "drv")
+            ok, log = drivers.cpp_build(os.path.join(self.root, "cpp"), m.group(1), "P", sum(self.shape), self.exe)
+            if not ok:
+                self.problem = "generated C++ does not compile: " + log[-800:]
+                return self
+            self.ok = True
+            return self
+
+    ppk = {s: PatPkg(s, i) for i, s in enumerate(shapes)}
+    pmap(lambda p: p.prepare(), list(ppk.values()), jobs=max(2, NCPU // 4))
+
+    def patwork(x):
+        p = ppk[tuple(x["shape"])]
+        if not p.ok:
+            return x, None, None
+        lines = [wirelib.ndjson_header(p.schema)]
+        v = 0
+        for i, st in enumerate(p.shape):
+            for k in range(x["lens"][i] if st else 1):
+                v += 1
+                lines.append(json.dumps({"s%d" % i: v * (-1) ** v}, separators=(",", ":")))
+        text = "\n".join(lines) + "\n"
+        tag = "".join(str(n) for n in x["lens"])
+        infile = os.path.join(p.root, "in-%s.ndjson" % tag)
+        open(infile, "w").write(text)
+        want = [json.loads(l) for l in lines]
+        bad = None
+        for lang in ("py", "cpp"):
+            outj = os.path.join(p.root, "out-%s-%s.ndjson" % (tag, lang))
+            outb = os.path.join(p.root, "out-%s-%s.bin" % (tag, lang))
+            back = os.path.join(p.root, "back-%s-%s.ndjson" % (tag, lang))
+            for a, b, fi, fo in (("ndjson", "ndjson", infile, outj), ("ndjson", "binary", infile, outb), ("binary", "ndjson", outb, back)):
+                if lang == "py":
+                    rc, err = drivers.py_copy(os.path.join(p.root, "py"), p.pymod, "P", a, b, fi, fo)
+                else:
+                    rc, err = drivers.cpp_copy(p.exe, a, b, fi, fo, bufsize=1 + len(tag) % 2)
+                if rc != 0:
+                    e = [l for l in err.splitlines() if l.startswith("EXC")]
+                    bad = "%s %s->%s raised on a well-formed stream: %s" % (lang, a, b, (e[-1] if e else err.strip()[-200:])[:250])
+                    break
+                if b == "ndjson":
+                    try:
+                        got = [json.loads(l) for l in open(fo).read().split("\n") if l.strip()]
+                    except Exception as ex:
+                        got = None
+                    if got != want:
+                        bad = "%s %s->%s: value lines %s, written %s" % (lang, a, b, json.dumps((got or [])[1:])[:200], json.dumps(want[1:])[:200])
+                        break
+            if bad:
+                break
+        return x, bad, infile
+
+    for x, bad, infile in pmap(patwork, pats):
+        if infile is None:
+            continue
+        c.cov["traces_validated_against_impl"] += 1
+        c.count(("pattern", json.dumps(x)), nontrivial=sum(x["shape"]) > 0)
+        if bad:
+            c.violation("C02:pattern:%s" % bad.split(" ")[0], bad, {"shape_stream_flags": x["shape"], "stream_lengths": x["lens"],
+                                                                     "input": open(infile).read()[-2000:]})
+    c.cov["stream_patterns"] = len(pats)
     c.cov["union_shapes_exercised"] = len(kinds_seen)
     c.cov["packages"] = len(good)
     c.cov["types"] = len(types)
